@@ -2,6 +2,8 @@
 # usage: tools/mutant.sh <file-relative-to-repo> <sed-expr> <property> [lemma-filter...]
 # applies one sed edit to a scratch copy of /repo (outside /repo and /verif), runs the deductive tier of ./check there
 set -e
+VERIF=$(cd "$(dirname "$0")/.." && pwd)
+cd "$VERIF"
 SC=$(mktemp -d /tmp/pyvc_mut.XXXXXX)
 trap 'rm -rf "$SC"' EXIT
 rsync -a --include='*/' --include='*.py' --include='*.yaml' --include='*.dat' --exclude='*' /repo/armi "$SC"/
@@ -10,6 +12,6 @@ if diff -q "/repo/$1" "$SC/$1" >/dev/null; then echo "MUTANT DID NOT APPLY"; exi
 diff "/repo/$1" "$SC/$1" | head -6
 shift; shift
 pid=$1; shift
-for h in /verif/contracts/${pid}_*.py; do
+for h in $VERIF/contracts/${pid}_*.py; do
   ARMI_REPO=$SC python3-vt -m pyvc.run "$h" ${1:+--only "$@"} | grep -v " ok .* [0-9]*/[0-9]* " | grep -B1 -A0 "REFUTED\|UNDECIDED\|unsupported\|error" | head -12 || true
 done
